@@ -12,10 +12,13 @@ import (
 	"encoding/json"
 	"flag"
 	"fmt"
+	"io"
 	"os"
 	"path/filepath"
 	"sort"
 	"strings"
+
+	"github.com/sirupsen/logrus"
 )
 
 type Failure struct {
@@ -145,6 +148,7 @@ type runner func(seed int64, n int, dir string, tier string) *Report
 var runners = map[string]runner{}
 
 func main() {
+	logrus.SetOutput(io.Discard)
 	if len(os.Args) < 2 {
 		var ks []string
 		for k := range runners {
